@@ -816,8 +816,7 @@ Examples:
                 mask = ones(xp.size, dtype=bool)
             else:
                 mask = zeros(xp.size, dtype=bool)
-                try: mask[sorted(index[0], key=abs)] = True
-                except IndexError: pass
+                mask[[i for i in index[0] if -mask.size <= i < mask.size]] = True #NOTE: ignores out-of-range
             xp = xtype(choose(mask, (x,xp)))
             return f(xp, *args, **kwds)
         func.samples = _points
@@ -875,8 +874,7 @@ Examples:
                 mask = ones(xp.size, dtype=bool)
             else:
                 mask = zeros(xp.size, dtype=bool)
-                try: mask[sorted(index[0], key=abs)] = True
-                except IndexError: pass
+                mask[[i for i in index[0] if -mask.size <= i < mask.size]] = True #NOTE: ignores out-of-range
             xp = choose(mask, (x,xp)).astype(_ints[0])
             ###############
             return f(xtype(xp), *args, **kwds)
@@ -935,8 +933,7 @@ Examples:
                 mask = ones(xp.size, dtype=bool)
             else:
                 mask = zeros(xp.size, dtype=bool)
-                try: mask[sorted(index[0], key=abs)] = True
-                except IndexError: pass
+                mask[[i for i in index[0] if -mask.size <= i < mask.size]] = True #NOTE: ignores out-of-range
             xp = choose(mask, (x,xp)).astype(float)
             return f(xtype(xp), *args, **kwds)
         func.index = _index
@@ -995,8 +992,7 @@ Examples:
                 mask = ones(y.size, dtype=bool)
             else:
                 mask = zeros(y.size, dtype=bool)
-                try: mask[sorted(index[0], key=abs)] = True
-                except IndexError: pass
+                mask[[i for i in index[0] if -mask.size <= i < mask.size]] = True #NOTE: ignores out-of-range
             y = choose(mask, (fx,y))#.astype(float)
             return xtype(y)
         func.index = _index
